@@ -316,6 +316,11 @@ def handle (req : Sexp) : Sexp :=
         | none => match x with
           | .list (.atom "spec" :: ps) => (match ps.mapM decProperty with | some ps => okS [.str (printSpec fmt ps)] | none => errS "protocol" "printany")
           | _ => errS "protocol" "printany"
+  | .list [.atom "nodeiter", x] =>
+    -- `iterate()` of a property: the tags of the visited nodes in order (model of the loop of base.py over `children()`)
+    match decProperty x with
+    | some p => okS ((Node.prop p).iterate.map (fun n => Sexp.atom n.tag))
+    | none => errS "protocol" "nodeiter"
   | .list [.atom "ping"] => okS [.atom "pong"]
   | _ => errS "protocol" "unknown request"
 
